@@ -537,7 +537,32 @@ fn finish(d: &Driver, case: &Case, b: usize, w: World, obs: Obs, m: Matched, con
     if let Some(f) = cd.failures.iter().find(|f| f.prop == "C04") {
         out.failures.push(fail("C04", "position-reused-after-crash", b, format!("{where_}: {}", f.detail)));
     }
+    // C12 once more on the state after the continuation and its restart (only when the continuation itself
+    // removes nothing: whatever is missing from a batch then is missing because of the crash)
+    if !out.cont_used.iter().any(|o| matches!(o, Op::Truncate { .. } | Op::Delete { .. })) && cd.world.log.is_some() {
+        if let Ok(fobs) = cd.world.observe() {
+            if let Some(msg) = batch_atomicity(d, b, &fobs) {
+                out.failures.push(fail("C12", "batch-torn-after-recovery-and-continuation", b, format!("{where_}, recovery, {} and a restart: {msg}", out.cont_used.iter().map(|o| o.short()).collect::<Vec<_>>().join(", "))));
+            }
+        }
+    }
     out
+}
+
+/// For a crash inside a multi-frame entry: the continuation that writes, right behind the torn fragments, one
+/// entry of exactly the size the torn entry still lacks (then restarts).
+pub fn continuation_filling_the_gap(d: &Driver, b: usize, image: &Image) -> Option<Vec<Op>> {
+    let Op::Append { q, lens, .. } = &d.steps.get(b)?.op else { return None };
+    let name_len = d.names[*q].len();
+    let p = crate::walparse::parse(image);
+    if !p.problems.iter().any(|x| x.contains("ends inside an entry")) {
+        return None;
+    }
+    let written: usize = p.frames.iter().filter(|f| f.entry == p.entries.len()).map(|f| f.len).sum();
+    let total = crate::walparse::append_entry_len(name_len, lens);
+    let missing = total.checked_sub(written)?;
+    let len = missing.checked_sub(23 + name_len)?;
+    Some(vec![Op::Append { q: *q, pos: None, lens: vec![len as u32], uid: 6_000_001 }, Op::Restart { policy: None }])
 }
 
 fn check_c04_cont(op: &Op, o: &Outcome, cd: &Driver, hw: &BTreeMap<String, u64>, failures: &mut Vec<Failure>, b: usize, where_: &str) {
